@@ -132,6 +132,13 @@ MUTATIONS = [
      ("        if let Some(bounds_advance) = bounds_advance {", "        if let Some(bounds_advance) = bounds_advance.or(Some(0)) {"), r"c17_metrics_update_contract"),
     ("width_class_sub_before_check", "C19", "fontdrasil/src/types.rs",
      ("        value\n            .checked_sub(1)\n            .and_then(|idx| WidthClass::all_values().get(idx as usize))", "        WidthClass::all_values()\n            .get((value - 1) as usize)"), r"c19_width_class_try_from_total"),
+    ("width_class_nearest_skips_first_class", "C19", "fontdrasil/src/types.rs",
+     ("            .iter()\n            .map(|v| (*v, (v.to_percent() - percent).abs()))", "            .iter()\n            .skip(1)\n            .map(|v| (*v, (v.to_percent() - percent).abs()))"), r"c19_width_class_nearest_is_a_valid_and_nearest_class"),
+    ("use_my_metrics_ignores_x_offset", "C19", "fontbe/src/glyphs.rs",
+     ("    coeffs[4] = coeffs[4].ot_round();\n    coeffs[5] = 0.0;", "    coeffs[4] = 0.0;\n    coeffs[5] = 0.0;"), r"c19_use_my_metrics_only_when"),
+    ("use_my_metrics_compares_wrapped_advances", "C19", "fontbe/src/glyphs.rs",
+     ("    let width: u16 = glyph.width.ot_round();\n    let component_width: u16 = component_glyph.width.ot_round();",
+      "    let width: u16 = (glyph.width + 0.5).floor() as i64 as u16;\n    let component_width: u16 = (component_glyph.width + 0.5).floor() as i64 as u16;"), r"c19_use_my_metrics_never_equates"),
     ("component_offset_clamped_again", "C19", "fontbe/src/glyphs.rs",
      ("    if !fits_i16(x) || !fits_i16(y) {", "    if !fits_i16(x) && !fits_i16(y) {"), r"c19_component_offset_rounded_or_rejected"),
 ]
